@@ -446,6 +446,15 @@ func (e *SpecEnv) evalCall(x *ast.CallExpr) Val {
 			return realV(sx("foldD", fn, arg(1).T, arg(2).T, toReal(arg(3))))
 		}
 		return realV(sx("foldK", fn, arg(1).T, arg(2).T, toReal(arg(3)), arg(4).T))
+	case "dataDot":
+		// dataDot(a, b, k): sum over i < k of the products of the i-th float64 children of the rows a and b
+		e.run.needData()
+		bf := e.run.boxFn("Real", "Data")
+		w.ensureSl("Data")
+		bs := e.run.boxFn("Sl_Data", "Data")
+		e.run.needNamed("dataDot", fmt.Sprintf(`(declare-fun dataDot (Data Data Int) Real)
+(assert (forall ((a Data) (b Data) (k Int)) (! (= (dataDot a b k) (ite (<= k 0) 0.0 (+ (dataDot a b (- k 1)) (* (un%s (select (arrSl_Data (un%s a)) (- k 1))) (un%s (select (arrSl_Data (un%s b)) (- k 1))))))) :pattern ((dataDot a b k)))))`, bf, bs, bf, bs))
+		return realV(sx("dataDot", arg(0).T, arg(1).T, arg(2).T))
 	case "forallG":
 		return e.quantSort(x, "R_GradContext", func(v string) Val {
 			return Val{K: KRef, T: v, Sort: "R_GradContext", Go: e.run.ptrTypeByName("GradContext")}
